@@ -100,12 +100,33 @@ pub fn history_props(id: &str) -> Option<HistoryProp> {
                    the item when a tree separates it by decisive planes only. Non-trivial = an item inserted/overwritten after \
                    the first build sits below >=2 decisive planes",
             cfg: RunCfg { margins: true, ..Default::default() },
-            tiers: vec![HistoryTier {
-                label: "C04-small",
-                gen: GenCfg { later_ops: (1, 30), rounds: (2, 6), op_weights: [70, 20, 5, 0, 0], ..GenCfg::small() },
-                quick: 4000,
-                thorough: 80_000,
-            }],
+            tiers: vec![
+                HistoryTier {
+                    label: "C04-small",
+                    gen: GenCfg { later_ops: (1, 30), rounds: (2, 6), op_weights: [70, 20, 5, 0, 0], ..GenCfg::small() },
+                    quick: 3500,
+                    thorough: 80_000,
+                },
+                // nodes of more than 100 items (the 99 % imbalance band only exists there), clustered data
+                HistoryTier {
+                    label: "C04-medium",
+                    gen: GenCfg {
+                        classes: vec![ValueClass::FarCluster, ValueClass::FarClusterMixed, ValueClass::Clustered, ValueClass::Uniform],
+                        dims: vec![(3, vec![2, 3, 4]), (2, vec![8, 16])],
+                        first_ops: (120, 500),
+                        later_ops: (5, 80),
+                        id_pool: (200, 600),
+                        rounds: (1, 3),
+                        threads: vec![1, 2, 4],
+                        op_weights: [85, 12, 3, 0, 0],
+                        avail_mem: vec![(1, vec![None])],
+                        n_trees: vec![(1, vec![None]), (3, vec![Some(1), Some(2), Some(3)])],
+                        ..GenCfg::medium()
+                    },
+                    quick: 500,
+                    thorough: 8000,
+                },
+            ],
             nontrivial: |_h, st| st.get("incremental_item_below_2_planes") > 0,
             assumptions: base_assume,
         }),
